@@ -82,14 +82,20 @@ func buildSigned(t *testing.T, typ, ver string, n int) (core.SignedData, core.Du
 			return testutil.RandomFuluVersionedSignedBlindedProposal(), core.DutyProposer, ver
 		}
 	case "attestation":
+		var att core.VersionedAttestation
 		switch ver {
 		case "deneb":
-			return testutil.RandomDenebCoreVersionedAttestation(), core.DutyAttester, ver
+			att = testutil.RandomDenebCoreVersionedAttestation()
 		case "electra":
-			return testutil.RandomElectraCoreVersionedAttestation(), core.DutyAttester, ver
+			att = testutil.RandomElectraCoreVersionedAttestation()
 		default:
-			return testutil.RandomFuluCoreVersionedAttestation(), core.DutyAttester, ver
+			att = testutil.RandomFuluCoreVersionedAttestation()
 		}
+		if n%2 == 1 { // as submitted by the local validator client: the envelope carries the validator index (a pointer)
+			vi := eth2p0.ValidatorIndex(1000 + n)
+			att.ValidatorIndex = &vi
+		}
+		return att, core.DutyAttester, ver
 	case "exit":
 		return core.NewSignedVoluntaryExit(testutil.RandomExit()), core.DutyExit, ver
 	case "registration":
